@@ -41,7 +41,8 @@ Proof.
   - destruct (G (buffers o) 0); rewrite ?Z.sub_0_r in *; try lia.
 Qed.
 
-(* the server's allocators are the ones built from options o0 for client c0 (o0 need not be the current options) *)
+(* the server's allocators are the ones built for client c0 from options o0 (o0 = the options the constructors saw:
+   the user's options with the status watcher's login count; it need not be the current state of either) *)
 Definition built (o0 : opts) (c0 : Z) (s : srv) : Prop :=
   cid s = c0 /\
   (forall k, AInv (get_alloc s k) /\
@@ -49,7 +50,7 @@ Definition built (o0 : opts) (c0 : Z) (s : srv) : Prop :=
   nwf (nodes s) /\ user (nodes s) = c0 /\ init_temp (nodes s) = initial_node_id o0.
 
 Definition SrvInv (s : srv) : Prop :=
-  wf_opts (so s) /\ exists o0, wf_opts o0 /\ 0 <= cid s < max_logins o0 /\ built o0 (cid s) s.
+  wf_opts (eff_opts s) /\ exists o0, wf_opts o0 /\ 0 <= cid s < max_logins o0 /\ built o0 (cid s) s.
 
 Lemma mk_alloc_inv o k c : wf_opts o -> 0 <= c < max_logins o ->
   exists a, mk_alloc o k c = Ok a /\ AInv a /\ (size a, pos a - off a, off a) = alloc_args o k c /\
@@ -62,28 +63,45 @@ Proof.
   exists a. split; auto. split; auto. split; auto. rewrite Kp, Ko, Ks. f_equal. f_equal. lia.
 Qed.
 
-Lemma new_allocators_inv o c : wf_opts o -> 0 <= c < max_logins o ->
-  exists s, new_allocators o c = SOk s /\ so s = o /\ built o c s /\ forall k x n, ~ is_live (get_alloc s k) x n.
+Lemma new_allocators_inv o sw ip c : let oe := with_logins o (eff_logins_of sw o) in
+  wf_opts oe -> 0 <= c < max_logins oe ->
+  exists s, new_allocators o sw ip c = SOk s /\ so s = o /\ sw_max s = sw /\ inproc s = ip /\ built oe c s /\
+            forall k x n, ~ is_live (get_alloc s k) x n.
 Proof.
-  intros W Hc. unfold new_allocators.
+  intros oe W Hc. unfold new_allocators. fold oe.
   assert (Hu : 0 <= c <= 31) by (destruct W as ((? & ?) & _); lia).
   pose proof W as (Wl & Wio & Wc & Wb & Wr & Wn).
+  change (initial_node_id oe) with (initial_node_id o) in Wn.
   destruct (ninit c (initial_node_id o)) as [n|] eqn:En.
   2:{ unfold ninit in En. destruct (Z.ltb_spec 31 c); [lia|discriminate]. }
   destruct (ninit_nwf c (initial_node_id o) n ltac:(lia) Wn En) as (Hn & Hus & Hit & _).
-  destruct (mk_alloc_inv o KControl c W Hc) as (ac & Ec & Ac & Pc & Lc). rewrite Ec.
-  destruct (mk_alloc_inv o KAudio c W Hc) as (aa & Ea & Aa & Pa & La). rewrite Ea.
-  destruct (mk_alloc_inv o KBuffer c W Hc) as (ab & Eb & Ab & Pb & Lb). rewrite Eb.
-  eexists. split; [reflexivity|]. split; [reflexivity|]. split.
+  destruct (mk_alloc_inv oe KControl c W Hc) as (ac & Ec & Ac & Pc & Lc). rewrite Ec.
+  destruct (mk_alloc_inv oe KAudio c W Hc) as (aa & Ea & Aa & Pa & La). rewrite Ea.
+  destruct (mk_alloc_inv oe KBuffer c W Hc) as (ab & Eb & Ab & Pb & Lb). rewrite Eb.
+  eexists. split; [reflexivity|]. split; [reflexivity|]. split; [reflexivity|]. split; [reflexivity|]. split.
   - split; [reflexivity|]. split; [intros [| |]; simpl; auto|]. simpl. auto.
   - intros [| |]; simpl; auto.
 Qed.
 
-Definition wf_sop (x : sop) : Prop :=
-  match x with SAlloc _ n _ => 0 <= n | SSetOpts o => wf_opts o | _ => True end.
+(* the login count the status watcher holds after a reply (id, m) *)
+Definition sw_after (s : srv) (m : option Z) : option Z :=
+  match m with Some x => if inproc s then sw_max s else Some x | None => sw_max s end.
 
-Lemma get_set_alloc s k a k' : get_alloc (set_alloc s k a) k' = if match k, k' with KAudio, KAudio | KControl, KControl | KBuffer, KBuffer => true | _, _ => false end then a else get_alloc s k'.
-Proof. destruct k, k'; reflexivity. Qed.
+(* operations under which no constructor raises: sizes >= 0; new options / a reported login count such that the options the
+   constructors will see are well-formed *)
+Definition wf_sop_in (s : srv) (x : sop) : Prop :=
+  match x with
+  | SAlloc _ n _ => 0 <= n
+  | SSetOpts o => wf_opts (with_logins o (eff_logins_of (sw_max s) o))
+  | SLogin _ m => wf_opts (with_logins (so s) (eff_logins_of (sw_after s m) (so s)))
+  | _ => True
+  end.
+
+Fixpoint wf_hist (gl : bool) (s : srv) (h : list sop) : Prop :=
+  match h with
+  | [] => True
+  | x :: r => wf_sop_in s x /\ match sstep gl s x with SOk (s1, _) => wf_hist gl s1 r | SRaise _ => True end
+  end.
 
 Lemma built_set_alloc o0 c0 s k a : built o0 c0 s -> AInv a ->
   pos a = pos (get_alloc s k) -> off a = off (get_alloc s k) -> size a = size (get_alloc s k) ->
@@ -95,9 +113,24 @@ Proof.
   destruct k, k'; simpl in *; try (split; assumption); split; auto; rewrite Kp, Ko, Ks; auto.
 Qed.
 
-Lemma sstep_inv s x : SrvInv s -> wf_sop x -> exists s' r, sstep s x = SOk (s', r) /\ SrvInv s'.
+Lemma set_client_id_inv s v : SrvInv s -> exists s', set_client_id false s v = SOk s' /\ SrvInv s' /\
+  so s' = so s /\ sw_max s' = sw_max s /\ inproc s' = inproc s.
 Proof.
-  intros (Wso & o0 & W0 & Hc0 & B) Hx. destruct x as [k n c|k a| |v|o]; simpl in *.
+  intros (Wso & o0 & W0 & Hc0 & B). unfold set_client_id.
+  destruct (Z.ltb_spec v 0); destruct (Z.leb_spec (eff_logins s) v); simpl;
+    try (exists s; split; [reflexivity|]; split; [split; auto; exists o0; auto|auto]).
+  destruct (new_allocators_inv (so s) (sw_max s) (inproc s) v Wso) as (s' & E & Eso & Esw & Eip & B' & _).
+  { simpl. unfold eff_logins in *. lia. }
+  rewrite E. exists s'. split; [reflexivity|]. split; [|auto].
+  split.
+  - unfold eff_opts, eff_logins. rewrite Eso, Esw. exact Wso.
+  - exists (with_logins (so s) (eff_logins_of (sw_max s) (so s))). destruct B' as (Hc' & R).
+    split; [exact Wso|]. rewrite Hc'. split; [simpl; unfold eff_logins in *; lia|]. split; auto.
+Qed.
+
+Lemma sstep_inv s x : SrvInv s -> wf_sop_in s x -> exists s' r, sstep false s x = SOk (s', r) /\ SrvInv s'.
+Proof.
+  intros I Hx. pose proof I as (Wso & o0 & W0 & Hc0 & B). destruct x as [k n c|k a| |v|o|id m]; simpl in *.
   - destruct B as (Hc & Hall & Hn). destruct (Hall k) as (A & E).
     destruct (step_inv (get_alloc s k) (OAlloc n c) A Hx) as (a' & r & Es & A' & Kp & Ko & Ks & _).
     simpl in Es. rewrite Es. eexists. eexists. split; [reflexivity|].
@@ -105,7 +138,7 @@ Proof.
     replace (cid (set_alloc s k a')) with (cid s) by (destruct k; reflexivity).
     apply built_set_alloc; auto. split; auto.
   - destruct B as (Hc & Hall & Hn). destruct (Hall k) as (A & E).
-    destruct (step_inv (get_alloc s k) (OFree a) A I) as (a' & r & Es & A' & Kp & Ko & Ks & _).
+    destruct (step_inv (get_alloc s k) (OFree a) A Logic.I) as (a' & r & Es & A' & Kp & Ko & Ks & _).
     simpl in Es. destruct (free true (get_alloc s k) a) as [a''|e]; [|discriminate]. inversion Es; subst a''.
     eexists. eexists. split; [reflexivity|].
     split; [destruct k; exact Wso|]. exists o0. split; auto. split; [destruct k; exact Hc0|].
@@ -116,31 +149,51 @@ Proof.
     destruct Hs as (Hn1 & _ & Hu1 & Hi1 & _).
     eexists. eexists. split; [reflexivity|]. split; [exact Wso|]. exists o0. split; auto. split; [exact Hc0|].
     split; [reflexivity|]. split; [exact Hall|]. simpl. split; [exact Hn1|]. split; [exact Hu|exact Hi].
-  - unfold set_client_id.
-    destruct (Z.ltb_spec v 0); destruct (Z.leb_spec (max_logins (so s)) v); simpl;
-      try (eexists; eexists; split; [reflexivity|]; split; auto; exists o0; auto).
-    destruct (new_allocators_inv (so s) v Wso ltac:(lia)) as (s' & E & Eso & B' & _). rewrite E.
-    eexists. eexists. split; [reflexivity|]. unfold SrvInv. rewrite Eso. split; auto.
-    exists (so s). destruct B' as (Hc' & R). split; auto. split; [lia|]. rewrite Hc'. split; auto.
+  - destruct (set_client_id_inv s v I) as (s' & E & I' & _). rewrite E. eauto.
   - eexists. eexists. split; [reflexivity|]. split; [exact Hx|]. exists o0. auto.
+  - unfold login_done.
+    set (s1 := match m with
+               | Some x => if inproc s then s
+                           else mkSrv (so s) (cid s) (a_audio s) (a_control s) (a_buffer s) (nodes s) (Some x) (inproc s)
+               | None => s end).
+    assert (I1 : SrvInv s1).
+    { split.
+      - unfold eff_opts, eff_logins. unfold sw_after in Hx.
+        replace (so s1) with (so s) by (unfold s1; destruct m; [destruct (inproc s)|]; reflexivity).
+        replace (sw_max s1) with (match m with Some x => if inproc s then sw_max s else Some x | None => sw_max s end)
+          by (unfold s1; destruct m; [destruct (inproc s)|]; reflexivity).
+        exact Hx.
+      - exists o0. split; auto.
+        replace (cid s1) with (cid s) by (unfold s1; destruct m; [destruct (inproc s)|]; reflexivity).
+        split; auto. unfold s1; destruct m; [destruct (inproc s)|]; auto. }
+    destruct (set_client_id_inv s1 id I1) as (s' & E & I' & _). rewrite E. eauto.
 Qed.
 
-Lemma srun_inv h : forall s, SrvInv s -> Forall wf_sop h -> exists s' outs, srun s h = SOk (s', outs) /\ SrvInv s'.
+Lemma srun_inv h : forall s, SrvInv s -> wf_hist false s h -> exists s' outs, srun false s h = SOk (s', outs) /\ SrvInv s'.
 Proof.
   induction h as [|x h IH]; intros s I Hwf; simpl.
   - eauto.
-  - inversion Hwf as [|? ? Hx Hr]; subst.
-    destruct (sstep_inv s x I Hx) as (s1 & r & E & I1). rewrite E.
+  - destruct Hwf as (Hx & Hr).
+    destruct (sstep_inv s x I Hx) as (s1 & r & E & I1). rewrite E in *.
     destruct (IH s1 I1 Hr) as (s2 & outs & E2 & I2). rewrite E2. eauto.
 Qed.
 
-Lemma srv_reachable_proof o c h : wf_opts o -> 0 <= c < max_logins o -> Forall wf_sop h ->
-  exists s0 s outs, new_allocators o c = SOk s0 /\ srun s0 h = SOk (s, outs) /\ SrvInv s.
+Lemma with_logins_self o : with_logins o (max_logins o) = o.
+Proof. destruct o; reflexivity. Qed.
+
+Lemma srv_reachable_proof o c h : wf_opts o -> 0 <= c < max_logins o ->
+  exists s0, new_allocators o None false c = SOk s0 /\
+    (wf_hist false s0 h -> exists s outs, srun false s0 h = SOk (s, outs) /\ SrvInv s).
 Proof.
-  intros W Hc Hwf. destruct (new_allocators_inv o c W Hc) as (s0 & E & Eso & B & _).
+  intros W Hc.
+  destruct (new_allocators_inv o None false c) as (s0 & E & Eso & Esw & Eip & B & _); simpl;
+    rewrite ?with_logins_self; auto.
+  exists s0. split; auto. intros Hwf.
   assert (I0 : SrvInv s0).
-  { split; [rewrite Eso; auto|]. exists o. destruct B as (Hc' & R). rewrite Hc'. split; auto. split; auto. split; auto. }
-  destruct (srun_inv h s0 I0 Hwf) as (s & outs & Er & I). eauto 6.
+  { split.
+    - unfold eff_opts, eff_logins. rewrite Eso, Esw. simpl. rewrite with_logins_self. auto.
+    - simpl in B. rewrite with_logins_self in B. exists o. destruct B as (Hc' & R). rewrite Hc'. split; auto. split; auto. split; auto. }
+  apply srun_inv; auto.
 Qed.
 
 (* what is live lies in the client's own share of the kind's index space, after the reserved indices:
@@ -186,17 +239,64 @@ Proof.
   intros k a n Hl. apply built_live_range; auto.
 Qed.
 
-Lemma set_client_id_refuses_proof s v : v < 0 \/ max_logins (so s) <= v -> set_client_id s v = SOk s.
+Lemma set_client_id_refuses_proof s v : v < 0 \/ eff_logins s <= v -> set_client_id false s v = SOk s.
 Proof.
   intros H. unfold set_client_id.
-  destruct (Z.ltb_spec v 0); destruct (Z.leb_spec (max_logins (so s)) v); simpl; auto; lia.
+  destruct (Z.ltb_spec v 0); destruct (Z.leb_spec (eff_logins s) v); simpl; auto; lia.
 Qed.
 
-Lemma set_client_id_rebuilds_proof s v : wf_opts (so s) -> 0 <= v < max_logins (so s) ->
-  exists s', set_client_id s v = SOk s' /\ so s' = so s /\ built (so s) v s' /\
+Lemma set_client_id_rebuilds_proof s v : wf_opts (eff_opts s) -> 0 <= v < eff_logins s ->
+  exists s', set_client_id false s v = SOk s' /\ so s' = so s /\ sw_max s' = sw_max s /\ built (eff_opts s) v s' /\
     forall k x n, ~ is_live (get_alloc s' k) x n.
 Proof.
   intros W Hv. unfold set_client_id.
-  destruct (Z.ltb_spec v 0); destruct (Z.leb_spec (max_logins (so s)) v); simpl; try lia.
-  apply new_allocators_inv; auto.
+  destruct (Z.ltb_spec v 0); destruct (Z.leb_spec (eff_logins s) v); simpl; try lia.
+  destruct (new_allocators_inv (so s) (sw_max s) (inproc s) v W) as (s' & E & Eso & Esw & _ & B & Hn).
+  { simpl. unfold eff_logins in *. lia. }
+  exists s'. auto.
+Qed.
+
+(* the server's reply "you are client id of m": the reported count is stored, then the granted id is installed with the
+   shares of an m-way split *)
+Lemma login_reply_installs_granted_share_proof s id m : inproc s = false -> m <> 0 ->
+  wf_opts (with_logins (so s) m) -> 0 <= id < m ->
+  exists s', login_done false s id (Some m) = SOk s' /\ cid s' = id /\ sw_max s' = Some m /\ so s' = so s /\
+    built (with_logins (so s) m) id s' /\ forall k x n, ~ is_live (get_alloc s' k) x n.
+Proof.
+  intros Hip Hm W Hid. unfold login_done. rewrite Hip.
+  set (s1 := mkSrv (so s) (cid s) (a_audio s) (a_control s) (a_buffer s) (nodes s) (Some m) false).
+  assert (El : eff_logins s1 = m) by (unfold eff_logins, s1; simpl; destruct (Z.eqb_spec m 0); [lia|reflexivity]).
+  destruct (set_client_id_rebuilds_proof s1 id) as (s' & E & Eso & Esw & B & Hn).
+  { unfold eff_opts. rewrite El. exact W. }
+  { rewrite El. exact Hid. }
+  exists s'. unfold eff_opts in B. rewrite El in B. destruct B as (Hc & R).
+  split; [exact E|]. split; [exact Hc|]. split; [exact Esw|]. split; [exact Eso|]. split; [|exact Hn].
+  split; [exact Hc|exact R].
+Qed.
+
+(* before any reply (_max_logins is None) the two guards of _set_client_id are the same test *)
+Lemma guards_agree_offline s v : sw_max s = None -> set_client_id true s v = set_client_id false s v.
+Proof. intros H. unfold set_client_id, eff_logins. rewrite H. reflexivity. Qed.
+
+(* D7: with the guard on options.max_logins a granted id >= the LOCAL option is refused although the server reported a larger
+   count: the client keeps the allocators of (client 0 of 4) while the server knows it as client 5 of 8 *)
+Definition d7_opts := mkO 64 64 32 2 2 0 0 0 4 1000.
+Lemma login_refused_by_local_max_logins_proof :
+  exists s0 s outs, wf_opts d7_opts /\ wf_opts (with_logins d7_opts 8) /\
+    new_allocators d7_opts None false 0 = SOk s0 /\
+    srun true s0 [SLogin 5 (Some 8); SAlloc KControl 3 0] = SOk (s, outs) /\
+    cid s = 0 /\ sw_max s = Some 8 /\ outs = [None; Some 0] /\
+    ~ (per_client (with_logins d7_opts 8) KControl * 5 <= 0).
+Proof.
+  assert (W4 : wf_opts d7_opts).
+  { unfold wf_opts. split; [vm_compute; split; easy|]. split; [vm_compute; split; easy|].
+    split; [vm_compute; easy|]. split; [vm_compute; easy|].
+    split; [intros k; destruct k; vm_compute; split; easy|vm_compute; split; easy]. }
+  assert (W8 : wf_opts (with_logins d7_opts 8)).
+  { unfold wf_opts. split; [vm_compute; split; easy|]. split; [vm_compute; split; easy|].
+    split; [vm_compute; easy|]. split; [vm_compute; easy|].
+    split; [intros k; destruct k; vm_compute; split; easy|vm_compute; split; easy]. }
+  eexists. eexists. eexists. split; [exact W4|]. split; [exact W8|].
+  split; [vm_compute; reflexivity|]. split; [vm_compute; reflexivity|].
+  split; [reflexivity|]. split; [reflexivity|]. split; [reflexivity|]. vm_compute. intros H. apply H. reflexivity.
 Qed.
